@@ -329,9 +329,13 @@ def run_asm(ctx, specs, xdg, max_pairs=400, timeout=3000, extra=None):
         payload = {'mode': 'asm', 'forms': b, 'max_pairs': max_pairs}
         if extra:
             payload.update(extra)
+        import subprocess
         try:
             return impl_run_noaslr(ctx, payload, timeout, xdg)['results']
-        except Exception as e:  # driver crash (segfault, timeout): every form of the bucket is unexplained
+        except subprocess.TimeoutExpired:
+            # an overloaded machine is not a property violation: the forms are recorded as not run
+            return [{'id': s.get('id'), 'status': 'Timeout'} for s in b]
+        except Exception as e:  # driver crash (segfault): every form of the bucket is unexplained
             return [{'id': s.get('id'), 'status': 'DriverCrash', 'msg': str(e)[-600:]} for s in b]
     with ThreadPoolExecutor(max_workers=len(buckets)) as ex:
         outs = list(ex.map(one, buckets))
@@ -361,6 +365,9 @@ def judge(ctx, spec, res, stats):
     rep = {'code': spec['code'], 'stream': stream, 'how': 'exec(code) over `from pyiga.vform import *`; compile.generate(V); '
            'compile.compile_cython_module(src); assemble.instantiate_assembler(cls, kvs, args, None, boundary); '
            'asm.multi_entries / multi_blocks / assemble_vector; harness/impl/c01_driver.py re-creates spaces, geometry and inputs from `seed`'}
+    if st == 'Timeout':
+        log('[C01] form %s not run: driver timeout' % spec['id'])
+        return
     if st.startswith('Reject') or st in ('TooBig', 'Generated'):
         stats['rejected:' + res.get('phase', st)] += 1
         return
